@@ -5,7 +5,10 @@ import (
 	"database/sql"
 	"fmt"
 	"os"
+	"os/exec"
 	"strconv"
+	"strings"
+	"sync"
 	"testing"
 
 	dblib "github.com/SAP/go-dblib"
@@ -13,7 +16,25 @@ import (
 	"verif/internal/vh"
 )
 
+// answers is everything the package can be asked, as one line of text.
+func answers() string {
+	var sb strings.Builder
+	for l := -8; l <= 64; l++ {
+		a, err := dblib.ASEIsolationLevelFromGo(sql.IsolationLevel(l))
+		fmt.Fprintf(&sb, "F%d=%d/%v;", l, a, err != nil)
+	}
+	for a := -4; a <= 8; a++ {
+		fmt.Fprintf(&sb, "T%d=%d;S%d=%s;", a, int(dblib.ASEIsolationLevel(a).ToGo()), a, dblib.ASEIsolationLevel(a).String())
+	}
+	return sb.String()
+}
+
 func TestMain(m *testing.M) {
+	if os.Getenv("VERIF_C20_CHILD") == "1" {
+		// a short-lived process of TestManyShortProcesses: answer and go
+		fmt.Println("ANSWERS " + answers())
+		os.Exit(0)
+	}
 	vh.Rule("exhaustive: every sql.IsolationLevel -8..64 (x50 calls), every ASEIsolationLevel -4..8 (x2000 calls of ToGo and String), every supported non-default level there-and-back x2000; every ASE level value -70000..70000 plus values around 2^16..2^62 and the extremes (the directions must be consistent: a value that translates back to a supported non-default level is the ASE level that level translates to); rapid: random call histories of FromGo/ToGo/String (2..40 calls) checked for answer stability; 5+ separate processes whose recorded answers must agree, each of which asks its first questions about a different level and in a different direction. Non-trivial: a level whose ASE target is shared by several sql levels (the only place iteration order can matter), a supported non-default round trip, or a history that asks the same question twice; distinct by level / by call sequence")
 	vh.Assume("the exported ASELevel* constants are the four ASE levels; the oracle table is written from the property text")
 	// answers given before anything else in this process has used the package: the result must
@@ -431,4 +452,86 @@ func TestConcurrentCallers(t *testing.T) {
 		return f
 	}
 	vh.Check(t, "TestConcurrentCallers", vh.N(300, 6000), gen, run)
+}
+
+// ---- many short-lived processes: whatever a process works out once when it starts (tables,
+// bounds - from maps whose iteration order differs from process to process) gives the same
+// answers in every process. The test binary starts itself 48 times; every child prints all its
+// answers, which must be the ones this process gives (checked against the reference elsewhere).
+
+type procCase struct {
+	Children int `json:"child_processes"`
+}
+
+func runProcs(c procCase) *vh.Failure {
+	mine := answers()
+	type res struct {
+		out string
+		err error
+	}
+	results := make([]res, c.Children)
+	sem := make(chan struct{}, 8)
+	var wg sync.WaitGroup
+	for i := range results {
+		wg.Add(1)
+		go func(i int) {
+			defer wg.Done()
+			sem <- struct{}{}
+			defer func() { <-sem }()
+			cmd := exec.Command(os.Args[0], "-test.run", "^$")
+			cmd.Env = append(os.Environ(), "VERIF_C20_CHILD=1", "VERIF_OUT=")
+			b, err := cmd.CombinedOutput()
+			results[i] = res{string(b), err}
+		}(i)
+	}
+	wg.Wait()
+	seen := 0
+	for i, r := range results {
+		line := ""
+		for _, l := range strings.Split(r.out, "\n") {
+			if strings.HasPrefix(l, "ANSWERS ") {
+				line = strings.TrimPrefix(l, "ANSWERS ")
+			}
+		}
+		if line == "" {
+			if strings.Contains(r.out, "panic:") {
+				return vh.Failf("C20/child-process-crashed", "short-lived process %d of %d: %s", i+1, c.Children, trunc(r.out))
+			}
+			continue // could not be started here: not judged
+		}
+		seen++
+		if line != mine {
+			a, b := strings.Split(line, ";"), strings.Split(mine, ";")
+			for k := range a {
+				if k < len(b) && a[k] != b[k] {
+					return vh.Failf("C20/answer-differs-between-processes", "short-lived process %d of %d answers %s, this process %s", i+1, c.Children, a[k], b[k])
+				}
+			}
+			return vh.Failf("C20/answer-differs-between-processes", "short-lived process %d of %d gives a different list of answers", i+1, c.Children)
+		}
+	}
+	if seen == 0 {
+		vh.Note("TestManyShortProcesses: the test binary could not start itself here; not judged")
+		return nil
+	}
+	vh.LabelN("short-lived-processes-compared", seen)
+	vh.NonTrivial(fmt.Sprintf("procs|%d", seen))
+	return nil
+}
+
+func trunc(s string) string {
+	if len(s) > 600 {
+		return s[:600]
+	}
+	return s
+}
+
+func TestManyShortProcesses(t *testing.T) {
+	e := vh.NewEnum(t, "TestManyShortProcesses", runProcs)
+	if e.Skip() {
+		return
+	}
+	if vh.Shard() < 2 {
+		e.Do(procCase{Children: 48})
+	}
 }
